@@ -471,8 +471,8 @@ func Run(o Opts) int {
 			"states": states, "transitions": transitions, "traces_validated_against_impl": 0, "samples": samples,
 			"rule":              "state = one discharged query (a bounded model over all schedules of its length, or one inductive step from all invariant states); transition = scheduler steps x threads encoded",
 			"functions_encoded": funcs, "bounds": bounds, "queries": results, "solver_time_s": solverTime,
-			"technique":         "transition system generated from spinlock_amd64.s and the go/ssa of the Spinlock methods (macro-step folding of thread-local instructions), bounded model checking with a symbolic schedule plus one-step induction, decided by z3 (cross-checked by z3 5.1.0)",
-			"not_covered":       []string{"fairness/liveness of Acquire under an unfair schedule (only solo progress on a free lock is checked)", "more threads than listed", "yieldFn is modelled as a call without effect on the lock word", "native replay: a schedule at instruction granularity cannot be forced on real hardware; counterexamples are reported as traces"},
+			"technique":   "transition system generated from spinlock_amd64.s and the go/ssa of the Spinlock methods (macro-step folding of thread-local instructions), bounded model checking with a symbolic schedule plus one-step induction, decided by z3 (cross-checked by z3 5.1.0)",
+			"not_covered": []string{"fairness/liveness of Acquire under an unfair schedule (only solo progress on a free lock is checked)", "more threads than listed", "yieldFn is modelled as a call without effect on the lock word", "native replay: a schedule at instruction granularity cannot be forced on real hardware; counterexamples are reported as traces"},
 		},
 		"assumptions": []string{"sequential consistency + atomic locked XCHG (x86-TSO differs only by store->load reordering through the store buffer, which locked instructions drain)", "aligned 32-bit MOVL is atomic", "client protocol: release only by the holder, no re-acquire while holding",
 			"z3 4.8.12 / z3 5.1.0 / cvc5 answers"},
